@@ -406,14 +406,16 @@ func (fr *Frame) applyContract(callee *ssa.Function, fc *FuncContract, bindings 
 		}
 		x := mkCtx(st, pre)
 		if g, ok := x.evalBool(cl.Expr); ok {
-			c.oblige(fmt.Sprintf("%s[%s]", site, cl.Label), "requires", at, g, cl.Text)
+			c.obligeClause(cl, fmt.Sprintf("%s[%s]", site, cl.Label), "requires", at, g, cl.Text)
 		}
 	}
 	// havoc the callee's write set (for an ASSUMED contract the modifies clause is the whole story:
 	// its body is not verified, so its syntactic write set is not consulted)
 	ws := c.writeSet(callee)
 	if fc.Trusted != "" {
-		ws = map[string]bool{}
+		// allocation is not a modification: an unverified callee may always allocate (its results may be fresh)
+		c.heapVar("nextRef", SInt)
+		ws = map[string]bool{"nextRef": true}
 	}
 	declared := map[string]bool{}
 	atRefs := map[string][]Term{}
@@ -526,7 +528,7 @@ func (fr *Frame) applyContract(callee *ssa.Function, fc *FuncContract, bindings 
 					}
 				}
 			}
-			c.assume(at, g)
+			c.assumeClause(at, g, cl.Label)
 		}
 	}
 	return out
@@ -676,7 +678,13 @@ func (fr *Frame) encodeAppend(v *ssa.Call, cc *ssa.CallCommon, at Term, st *Stat
 	heap, es := c.elemHeap(slT.Elem())
 	innerSort := ArraySort(SInt, es)
 	h := c.get(st, heap)
-	base := Add(slOff(s), slLen(s))
+	base := Add(slOff(s), slLen(s)) // numeric bound of the window
+	basePos := func(k int64) Term {
+		if k == 0 {
+			return pos(slOff(s), slLen(s))
+		}
+		return pos(slOff(s), Add(slLen(s), IntLit(k)))
+	}
 	oldInner := Select(h, slArr(s), innerSort)
 	var newInner Term
 	var n Term
@@ -691,7 +699,7 @@ func (fr *Frame) encodeAppend(v *ssa.Call, cc *ssa.CallCommon, at Term, st *Stat
 				set := c.elemsOf(oldInner, slOff(s), slLen(s), es)
 				for i := int64(0); i < cnt; i++ {
 					ev := Select(src, IntLit(i), es)
-					newInner = Store(newInner, Add(base, IntLit(i)), ev)
+					newInner = Store(newInner, basePos(i), ev)
 					// element-set view of the extended window (follows from the definition of elemsOf)
 					ns := c.elemsOf(newInner, slOff(s), Add(slLen(s), IntLit(i+1)), es)
 					c.assert(Eq(ns, Store(set, ev, True)))
@@ -714,8 +722,9 @@ func (fr *Frame) encodeAppend(v *ssa.Call, cc *ssa.CallCommon, at Term, st *Stat
 		j := fmt.Sprintf("aj!%d", c.n)
 		c.assert(Term{fmt.Sprintf("(forall ((%s Int)) (! (=> (or (< %s %s) (>= %s (+ %s %s))) (= (select %s %s) (select %s %s))) :pattern ((select %s %s))))",
 			j, j, base.S, j, base.S, n.S, newInner.S, j, oldInner.S, j, newInner.S, j), SBool})
-		c.assert(Term{fmt.Sprintf("(forall ((%s Int)) (! (=> (and (<= 0 %s) (< %s %s)) (= (select %s (+ %s %s)) (select %s (+ %s %s)))) :pattern ((select %s (+ %s %s)))))",
-			j, j, j, n.S, newInner.S, base.S, j, tInner.S, slOff(t).S, j, tInner.S, slOff(t).S, j), SBool})
+		// the appended window, by absolute position p: new[p] = t[offT + (p - base)]
+		c.assert(Term{fmt.Sprintf("(forall ((%s Int)) (! (=> (and (<= %s %s) (< %s (+ %s %s))) (= (select %s %s) (select %s (idx %s (- %s %s))))) :pattern ((select %s %s))))",
+			j, base.S, j, j, base.S, n.S, newInner.S, j, tInner.S, slOff(t).S, j, base.S, newInner.S, j), SBool})
 	}
 	newLen := Add(slLen(s), n)
 	inplace := Le(newLen, slCap(s))
@@ -770,7 +779,7 @@ func (fr *Frame) checkCallbackArg(callee *ssa.Function, cc *ssa.CallCommon, cl *
 		}
 		x := &EvalCtx{c: c, fr: fr, st: scratch, old: st, vars: vars}
 		if g, ok := x.evalBool(cl.Expr); ok {
-			c.oblige(fmt.Sprintf("%s[%s]", site, cl.Label), "requires", at, g, cl.Text)
+			c.obligeClause(cl, fmt.Sprintf("%s[%s]", site, cl.Label), "requires", at, g, cl.Text)
 		}
 		return
 	}
@@ -819,7 +828,7 @@ func (fr *Frame) applyHigherOrder(callee *ssa.Function, fc *FuncContract, cc *ss
 	}
 	for _, cl := range fc.clauses("requires") {
 		if g, ok := mk(st, pre).evalBool(cl.Expr); ok {
-			c.oblige(fmt.Sprintf("%s[%s]", site, cl.Label), "requires", at, g, cl.Text)
+			c.obligeClause(cl, fmt.Sprintf("%s[%s]", site, cl.Label), "requires", at, g, cl.Text)
 		}
 	}
 	// the callback must leave the callee's own ghost state alone
